@@ -401,7 +401,10 @@ def u_piecewise():
     h, inv, on_entry = mk()
     loops = {0: dict(inv=inv, on_entry=on_entry, prop={"sound(rows=>active-piece-semantics)": P, "complete(intended-assignment=>rows)": P},
                      modifies=[(("self", "store", "holds"), None)], keep=("L", "U", "c"))}
-    return Unit(F, "SolverWrapper.add_piecewise_constant_constraint", h, globs=BASE_GLOBS, loops=loops, props=[P],
+    def replay(ob, model):
+        from vf.replay import replay_piecewise
+        return replay_piecewise(model)
+    return Unit(F, "SolverWrapper.add_piecewise_constant_constraint", h, globs=BASE_GLOBS, loops=loops, props=[P], replay=replay,
                 assumptions=[A3, LM5, "LM3 one-hot lemma: integers in [0,1] summing to 1 have exactly one 1 (assumed in the VC; Lean-checked in thorough)"],
                 callee_contracts=["SolverWrapper.add_constraint", "SolverWrapper.quicksum", "SolverWrapper.add_variables (scalar bounds)"])
 
@@ -539,7 +542,10 @@ def u_integer_product():
     loops = {0: dict(inv=inv2, on_entry=on_entry, modifies=[(("self", "store", "holds"), None)],
                      prop={"sound(rows=>component_i=bit_i*c)": P, "complete(component_i=bit_i*c=>rows)": P})}
     globs = dict(BASE_GLOBS, log2=log2_stub, ceil=ceil_stub)
-    return Unit(F, "SolverWrapper.add_integer_continuous_product_constraint", h, globs=globs, loops=loops, props=[P],
+    def replay(ob, model):
+        from vf.replay import replay_integer_product
+        return replay_integer_product(model)
+    return Unit(F, "SolverWrapper.add_integer_continuous_product_constraint", h, globs=globs, loops=loops, props=[P], replay=replay,
                 assumptions=[A3, LM5, "clog2: ceil(log2(y)) for y>=1 is the least n>=0 with 2**n >= y (float log2 treated as exact; swept exhaustively in the bounded part)",
                              "induction principle over naturals (engine rule `induct`)"],
                 callee_contracts=["SolverWrapper.add_constraint", "SolverWrapper.quicksum", "SolverWrapper.add_variables (scalar bounds)",
@@ -645,6 +651,8 @@ def u_apply_pending():
         finally:
             if saved is not None:
                 sys.modules["numpy"] = saved
+            else:
+                sys.modules.pop("numpy", None)
         c.prove("post:no-exception", raised is None, kind="post")
         c.prove("post:queues-empty-on-exit", z3.And(me._pending_fix_vars.n == 0, me._pending_fix_vals.n == 0,
                                                     me._pending_lb_vars.n == 0, me._pending_lb_vals.n == 0), prop=P)
